@@ -31,6 +31,7 @@ import CtyModel.Lemmas.d13Index
 import CtyModel.Lemmas.d13Map
 import CtyModel.Lemmas.d13Misc
 import CtyModel.Lemmas.d13Product
+import CtyModel.Lemmas.d13NoPanic
 namespace CtyModel
 namespace C13
 open Stdlib Value
@@ -1016,6 +1017,71 @@ theorem zipmap_null_key_rejected (E : Env) (e : Ty) (pre : List String) (post : 
     (hl : pre.length + 1 + post.length = vs.length) (hlen : (vs.length : Int) ≤ maxInt) (retTy : Ty) :
     Fails (zipmapImpl E [⟨.list .string, .seq (pre.map Payload.s ++ .null :: post)⟩, ⟨.list e, .seq vs⟩] retTy) :=
   zipmapImpl_null_key E e pre post vs hpost hl hlen retTy
+
+/-! ## length and hasindex against a reference; never a panic -/
+
+/-- **length** = number of members of a known list, tuple, map, or wholly known set (the
+statement the `wrappers` unfolding leaves to C02, in plain vocabulary) -/
+theorem length_reference (e : Ty) (ts : List Ty) (vs : List Payload) (ks : List String) (ids : List Int)
+    (retTy : Ty) :
+    lengthImpl [⟨.list e, .seq vs⟩] retTy = .ok (intVal vs.length) ∧
+    lengthImpl [⟨.tuple ts, .seq vs⟩] retTy = .ok (intVal ts.length) ∧
+    lengthImpl [⟨.map e, .smap ks vs⟩] retTy = .ok (intVal vs.length) ∧
+    (Payload.whollyKnownL vs = true → lengthImpl [⟨.set e, .sset ids vs⟩] retTy = .ok (intVal vs.length)) :=
+  lengthImpl_reference e ts vs ks ids retTy
+
+/-- **hasindex** through the whole call protocol: for a list or tuple and ANY known number
+`true` iff the number is a whole position inside the sequence; for a map and a string
+`true` iff the map has the key -/
+theorem hasindex_reference (e : Ty) (ts : List Ty) (vs : List Payload) (ks : List String) (x : Num) (k : String)
+    (hm : Payload.containsMarkedL vs = false) :
+    (Fn.call hasIndexSpec hasIndexType hasIndexImpl [⟨.list e, .seq vs⟩, numVal x]).1 =
+      .ok (boolVal (match Spec.natIndex? x with | some i => decide (i < vs.length) | none => false)) ∧
+    (Fn.call hasIndexSpec hasIndexType hasIndexImpl [⟨.tuple ts, .seq vs⟩, numVal x]).1 =
+      .ok (boolVal (match Spec.natIndex? x with | some i => decide (i < ts.length) | none => false)) ∧
+    (Fn.call hasIndexSpec hasIndexType hasIndexImpl [⟨.map e, .smap ks vs⟩, strVal k]).1 =
+      .ok (boolVal (ks.contains k)) :=
+  hasIndex_call_reference e ts vs ks x k hm
+
+/-- the iteration hypotheses of `merge_map` / `merge_object` hold of every known unmarked
+map or object value -/
+theorem merge_arguments_iterable (E : Env) (e : Ty) (ns : List String) (ts : List Ty) (os : List Bool)
+    (ks : List String) (vs : List Payload) :
+    Iterable E ⟨.map e, .smap ks vs⟩ ∧ Iterable E ⟨.object ns ts os, .smap ks vs⟩ :=
+  iterable_map_object E e ns ts os ks vs
+
+/-- **never a Go panic**: `element`, `index`, `slice`, `chunklist` on a known mark-free list,
+whatever known numbers they are given (whole or fractional, of either sign, beyond
+`int`, infinite) -/
+theorem index_arithmetic_never_panics (E : Env) (e : Ty) (he : e.equals e = true) (vs : List Payload) (x y : Num)
+    (retTy : Ty) (hlen : (vs.length : Int) ≤ maxInt) (hm : Payload.containsMarkedL vs = false)
+    (hm' : ∀ p ∈ vs, p.isMarked = false) :
+    NoPanic (elementImpl [⟨.list e, .seq vs⟩, numVal x] retTy) ∧
+    NoPanic (indexImpl [⟨.list e, .seq vs⟩, numVal x] retTy) ∧
+    NoPanic (sliceImpl E [⟨.list e, .seq vs⟩, numVal x, numVal y] (.list e)) ∧
+    NoPanic (chunklistImpl E [⟨.list e, .seq vs⟩, numVal x] retTy) :=
+  index_arithmetic_no_panic E e he vs x y retTy hlen hm hm'
+
+/-- …`index` on tuples and maps and `lookup` on objects (the default's conversion being the
+environment's business) -/
+theorem index_lookup_never_panic (E : Env) (e : Ty) (ts : List Ty) (vs : List Payload) (ks ns : List String)
+    (os : List Bool) (x : Num) (k : String) (d : Value) (retTy : Ty)
+    (hl : ts.length = vs.length) (hm : Payload.containsMarkedL vs = false)
+    (hd : NoPanic (convertTo E d retTy)) :
+    NoPanic (indexImpl [⟨.tuple ts, .seq vs⟩, numVal x] retTy) ∧
+    NoPanic (indexImpl [⟨.map e, .smap ks vs⟩, strVal k] retTy) ∧
+    (ns.length = ts.length → ns.length = os.length → ns.length = vs.length →
+      Payload.whollyKnownL vs = true → (∀ p ∈ vs, p.isMarked = false) →
+      NoPanic (lookupImpl E [⟨.object ns ts os, .smap ns vs⟩, strVal k, d] retTy)) :=
+  index_lookup_no_panic E e ts vs ks ns os x k d retTy hl hm hd
+
+/-- …and `distinct`, `contains` on lists of a plain element type -/
+theorem equality_functions_never_panic (E : Env) (e : Ty) (hw : e.wf = true) (hp : e.plain = true)
+    (vs : List Payload) (q : Payload) (retTy : Ty)
+    (hm : ∀ p ∈ vs, Payload.plainMember e p = true) (hq : Payload.plainMember e q = true) :
+    NoPanic (distinctImpl E [⟨.list e, .seq vs⟩] (.list e)) ∧
+    NoPanic (containsImpl E [⟨.list e, .seq vs⟩, ⟨e, q⟩] retTy) :=
+  equality_functions_no_panic E e hw hp vs q retTy hm hq
 
 /-! ## Non-vacuity: the hypotheses above are satisfiable by non-trivial values -/
 
